@@ -133,13 +133,18 @@ def gen_model(rng: random.Random, *, max_samples: int = 8, max_perf: int = 4, ma
                     break
             patches.append({"name": safe_name(rng, pn), "partials": my_partials})
             my_patches.append(len(patches) - 1)
+        if my_patches and rng.random() < 0.2:
+            my_patches = my_patches + [rng.choice(my_patches)]          # the same patch assigned to two parts
         perfs.append({"name": safe_name(rng, pn), "patches": my_patches})
     nv = rng.randint(0, max_vols)
     vols = []
     vn: set = set()
     for vi in range(nv):
         k = rng.randint(0, nperf)
-        vols.append({"name": safe_name(rng, vn), "performances": rng.sample(range(nperf), k)})
+        pl = rng.sample(range(nperf), k)
+        if pl and rng.random() < 0.2:
+            pl = pl + [rng.choice(pl)]
+        vols.append({"name": safe_name(rng, vn), "performances": pl})
     if sparse and rng.random() < 0.4:
         # entities scattered over their directory / parameter areas (unused slots in between, high slot numbers)
         for lst, lim in ((samples, 0x2000), (partials, 0x1000), (patches, 0x400), (perfs, 0x200)):
@@ -152,7 +157,7 @@ def gen_model(rng: random.Random, *, max_samples: int = 8, max_perf: int = 4, ma
             if len(set(chosen)) == len(lst):
                 for e, sl in zip(lst, chosen):
                     e["slot"] = sl
-    return {"fat_version": rng.choice([1, 1, 2]), "spare": rng.choice([0, 1, 5, 30]), "disk_name": "DISK %d" % rng.randint(0, 99),
+    return {"fat_version": rng.choice([1, 1, 2]), "fat_version_first": rng.random() < 0.1, "spare": rng.choice([0, 1, 5, 30]), "disk_name": "DISK %d" % rng.randint(0, 99),
             "samples": samples, "partials": partials, "patches": patches, "performances": perfs, "volumes": vols}
 
 
